@@ -84,6 +84,9 @@ type State struct {
 	cuts    map[string]bool
 	subMemo map[string]*Term
 	memoShared bool
+	pendingFork *Term // case split requested by a `fork` clause, taken after the current instruction
+	entryNonzero map[string]bool
+	nonzero map[string]bool // residue atoms known to be non-zero (exponents reduce by Fermat)
 	entrySubst map[string]*Term // rewrite rules known at function entry (restored at a forgetting cut)
 	binds    map[string]int       // number of distinct values bound to a source-level name so far
 	lastBind map[string]ssa.Value
@@ -114,6 +117,13 @@ func (s *State) fork() *State {
 		n.cuts[k] = true
 	}
 	n.entrySubst = s.entrySubst
+	n.entryNonzero = s.entryNonzero
+	if len(s.nonzero) > 0 {
+		n.nonzero = make(map[string]bool, len(s.nonzero))
+		for k := range s.nonzero {
+			n.nonzero[k] = true
+		}
+	}
 	// the memo of rewritten terms is shared until one side learns a new rule
 	n.subMemo = s.subMemo
 	if s.subMemo != nil {
@@ -247,41 +257,126 @@ func (s *State) assume(t *Term) {
 				s.addSubst(t.Args[0], tFalse)
 			}
 		}
+		// x != 0 for a residue atom x: exponents of x reduce modulo M-1 from here on (Fermat)
+		if eq := t.Args[0]; eq.Op == "=" && modulusOf(eq.Args[0].Sort) != nil && eq.Args[1].IsConst() && eq.Args[1].Val.Sign() == 0 {
+			if a := residueAtom(eq.Args[0]); a != nil {
+				if s.nonzero == nil {
+					s.nonzero = map[string]bool{}
+				}
+				if !s.nonzero[a.Key()] {
+					s.nonzero[a.Key()] = true
+					s.subMemo = nil
+					s.memoShared = false
+				}
+			}
+		}
 	}
+}
+
+// assumeCase: assume the condition of an explicit case split; whatever its size it also becomes a rewrite
+// rule, so that every ite on it collapses in this case.
+func (s *State) assumeCase(c *Term) {
+	c = s.sub(c)
+	s.assume(c)
+	// atom == const: substitute the atom; atom != 0 for a two-valued atom: it is 1
+	if eq, neg := c, false; true {
+		if eq.Op == "not" {
+			eq, neg = eq.Args[0], true
+		}
+		if eq.Op == "=" && eq.Args[0].Sort == SInt && eq.Args[1].IsConst() && eq.Args[1].Val.Sign() == 0 {
+			p := polyOf(eq.Args[0])
+			var at *Term
+			coef, c0 := big0, big0
+			shape := len(p.t) <= 2
+			for k, e := range p.t {
+				if k == "" {
+					c0 = e.c
+				} else if at == nil && len(e.m.f) == 1 && e.m.f[0].exp.Cmp(big1) == 0 && e.c.CmpAbs(big1) == 0 {
+					at, coef = e.m.f[0].atom, e.c
+				} else {
+					shape = false
+				}
+			}
+			if shape && at != nil {
+				val := new(big.Int).Neg(c0)
+				if coef.Sign() < 0 {
+					val = c0
+				}
+				lo, hi := rangeOf(at)
+				if !neg {
+					s.addSubst(at, mkInt(val))
+				} else if lo != nil && hi != nil && lo.Sign() == 0 && hi.Cmp(big1) == 0 && (val.Sign() == 0 || val.Cmp(big1) == 0) {
+					s.addSubst(at, mkInt(new(big.Int).Sub(big1, val)))
+				}
+			}
+		}
+	}
+	switch c.Op {
+	case "=", "<=", "app", "var":
+		s.addSubst(c, tTrue)
+	case "not":
+		switch c.Args[0].Op {
+		case "=", "<=", "app", "var":
+			s.addSubst(c.Args[0], tFalse)
+		}
+	}
+}
+
+// residueAtom: the atom x when t is x (possibly wrapped as the polynomial 1*x), else nil.
+func residueAtom(t *Term) *Term {
+	if t.Op == "poly" {
+		return t.P.IsAtom()
+	}
+	if isAtomTerm(t) {
+		return t
+	}
+	return nil
 }
 
 // smallCondition: a condition over at most three atoms (the kind that occurs as an ite condition).
 func smallCondition(t *Term) bool {
-	n := 0
 	ok := true
 	t.walk(func(u *Term) {
-		switch u.Op {
-		case "var", "select":
-			n++
-		case "app":
-			if len(u.Args) == 0 {
-				n++
-			}
-		case "ite":
+		if u.Op == "ite" {
 			ok = false
 		}
 	})
-	return ok && n <= 3
+	if !ok {
+		return false
+	}
+	// atoms of the compared polynomials (an atom counts once, whatever is inside it)
+	n := 0
+	var count func(u *Term)
+	count = func(u *Term) {
+		switch u.Op {
+		case "poly":
+			n += len(u.P.Atoms())
+		case "const":
+		case "=", "<=", "not", "and":
+			for _, a := range u.Args {
+				count(a)
+			}
+		default:
+			n++
+		}
+	}
+	count(t)
+	return n <= 3
 }
 
 // sub applies the state's rewrite rules (memoised until the rule set changes).  Rules are resolved
 // lazily: the result is rewritten again until it is stable.
 func (s *State) sub(t *Term) *Term {
-	if len(s.subst) == 0 {
+	if len(s.subst) == 0 && len(s.nonzero) == 0 {
 		return t
 	}
 	if s.subMemo == nil {
 		s.subMemo = map[string]*Term{}
 	}
-	r := substituteMemo(t, s.subst, s.subMemo)
+	r := substituteMemo(t, s.subst, s.subMemo, s.nonzero)
 	for i := 0; i < 4 && r != t; i++ {
 		t = r
-		r = substituteMemo(t, s.subst, s.subMemo)
+		r = substituteMemo(t, s.subst, s.subMemo, s.nonzero)
 	}
 	return r
 }
@@ -480,6 +575,13 @@ func (e *Engine) loadPath(st *State, r *Region, path []int, t types.Type) Value 
 		if isScalarType(t) {
 			return e.symbolicScalar(r.name+pathName(r.typ, path), t)
 		}
+	}
+	if !ok && r.name == "rand.Reader" && len(path) == 0 {
+		// crypto/rand.Reader: set by the standard library's initialisation, never nil (assumption, listed)
+		e.usedIntrinsic("crypto/rand.Reader")
+		v = &IfaceVal{null: tFalse, tagT: mkIntVarR("rand.Reader.dyn", nil, nil), obj: "rand.Reader"}
+		st.mem.cells[pathKey(r.id, path)] = v
+		ok = true
 	}
 	if !ok {
 		e.fail("load from uninitialised cell %s%s (region %s)", r.name, pathName(r.typ, path), r.name)
@@ -792,7 +894,13 @@ func (e *Engine) addObligation(st *State, fr *Frame, kind, label string, goal *T
 		o.Hyps = append([]*Term{}, st.hyps...)
 	}
 	if dbg := os.Getenv("VCGO_DEBUG_OBL"); dbg != "" && strings.Contains(name, dbg) {
-		fmt.Fprintf(os.Stderr, "[obl] %s\n   goal: %s\n", name, trunc(goal.Key(), 600))
+		fmt.Fprintf(os.Stderr, "[obl] %s\n   goal: %s\n", name, trunc(pretty(goal, 12), 6000))
+		if os.Getenv("VCGO_DEBUG_HYPS") != "" {
+			for i, h := range st.hyps {
+				fmt.Fprintf(os.Stderr, "   hyp %d: %s\n", i, trunc(h.Key(), 300))
+			}
+			fmt.Fprintf(os.Stderr, "   trace: %v\n", st.trace)
+		}
 	}
 	e.obls = append(e.obls, o)
 }
@@ -1160,6 +1268,9 @@ func (e *Engine) binop(st *State, fr *Frame, op token.Token, x, y Value, xt type
 		if op == token.ADD && sx.known && sy.known {
 			return &StrVal{known: true, s: sx.s + sy.s}
 		}
+		if op == token.ADD {
+			return &StrVal{} // contents not tracked
+		}
 		e.fail("unsupported string operation %s", op)
 	}
 	a, ok1 := x.(*Term)
@@ -1298,6 +1409,12 @@ func ifaceTagTerm(a *IfaceVal) *Term {
 	}
 	if a.tag != "" {
 		return mkApp("errtag$"+a.tag, SInt)
+	}
+	if a.dyn != nil {
+		// a value of a zero-size struct type is identified by its dynamic type alone
+		if s, ok := underlying(a.dyn).(*types.Struct); ok && s.NumFields() == 0 {
+			return mkApp("dyntype$"+a.dyn.String(), SInt)
+		}
 	}
 	return nil
 }
@@ -1524,6 +1641,22 @@ func (e *Engine) execFrom(st *State, fr *Frame, b *ssa.BasicBlock, prev *ssa.Bas
 				}
 			default:
 				e.execInstr(st, fr, in)
+				if c := st.pendingFork; c != nil {
+					// `fork` clause of the contract: case analysis on a condition at this point
+					st.pendingFork = nil
+					st2 := st.fork()
+					fr2 := fr.fork()
+					st.assumeCase(c)
+					st2.assumeCase(mkNot(c))
+					var out []Exit
+					if !st.infeasible() && !e.unsatisfiable(st.hyps) {
+						out = append(out, e.guarded(st, func() []Exit { return e.execFrom(st, fr, b, prev, idx+1) })...)
+					}
+					if !st2.infeasible() && !e.unsatisfiable(st2.hyps) {
+						out = append(out, e.guarded(st2, func() []Exit { return e.execFrom(st2, fr2, b, prev, idx+1) })...)
+					}
+					return out
+				}
 				if v, ok := in.(ssa.Value); ok {
 					if sp, ok := fr.vals[v].(*splitPtr); ok {
 						// pointer to an element of an array of aggregates at a symbolic index: case split
@@ -1966,6 +2099,9 @@ func (e *Engine) typeAssert(st *State, fr *Frame, in *ssa.TypeAssert) Value {
 	} else if iv.null.IsConst() && iv.null.Val.Sign() != 0 {
 		ok = tFalse
 		val = e.zeroValue(in.AssertedType)
+	} else if excludedDyn(iv, in.AssertedType) {
+		ok = tFalse
+		val = e.zeroValue(in.AssertedType)
 	} else {
 		// unknown dynamic type: either it is the asserted type (a fresh symbolic object of that type,
 		// with its type invariants) or it is not
@@ -1985,6 +2121,15 @@ func (e *Engine) typeAssert(st *State, fr *Frame, in *ssa.TypeAssert) Value {
 	}
 	e.addObligation(st, fr, "safety", "typeassert", ok, "type assertion succeeds")
 	return val
+}
+
+func excludedDyn(iv *IfaceVal, t types.Type) bool {
+	for _, x := range iv.notDyn {
+		if types.Identical(x, t) {
+			return true
+		}
+	}
+	return false
 }
 
 func describeValue(v Value) string {
